@@ -1,0 +1,21 @@
+//go:build verif
+// +build verif
+
+// Contracts for package http, read only by the verifier in /verif (build tag verif).
+// This file contains no code.
+
+package http
+
+// ASSUMED model of a connection as seen by the WebSocket layer: the bytes that arrive form a
+// ghost sequence wsin[0..], read in order (ghost(wspos) is the read position); Readn either
+// fails or fills the whole buffer with the next bytes. Write hands bytes to the peer.
+//@ func (*Connection).Readn props C20
+//@   trusted
+//@   ensures implies(result2 == nil, ghost(wspos) == old(ghost(wspos)) + len(p) && forall(i, 0, len(p), int(p[i]) == ghostat(wsin, old(ghost(wspos)) + i)))
+//@   modifies elems(p), ghost(wspos)
+
+//@ func (*Connection).Write props C20
+//@   trusted
+
+//@ func (*Connection).Close props C20
+//@   trusted
